@@ -3,11 +3,11 @@ NEXT GenNext
 CONSTANTS
   Unit = 8
   TickMs = 125
-  Family = "fixed"
-  Bursts = {2}
-  Rates <- RatesFin
-  SetRates <- NoRates
-  Ns = {1, 2}
+  Family = "inf"
+  Bursts = {0, 1, 3}
+  Rates <- RatesInf
+  SetRates <- RatesInf
+  Ns = {0, 1, 3}
   Dts <- GDtsQuick
   MaxEvents = 5
   MaxRes = 2
